@@ -813,7 +813,11 @@ def c20(ctx):
     ps = L.run_shards(binp, "mw-rt", mw, 4 if ctx.quick else 16, {"VF_N": 3 if ctx.quick else 12, "VF_SEED": ctx.seed})
     race_scan(ctx, ps, mw, "mw-rt")
     crash_as_violation(ctx, ps, mw, "mw-rt", "C20_Panic")
-    ctx.validate(sorted(glob.glob(os.path.join(mw, "mw-rt-*.ndjson"))), module="WriteSeqTrace", cfg="WriteSeqTrace.cfg")
+    # ... and of an ordinary association while Shutdown is called concurrently
+    ps = L.run_shards(binp, "mw-shut", mw, 4 if ctx.quick else 16, {"VF_N": 25 if ctx.quick else 120, "VF_SEED": ctx.seed})
+    race_scan(ctx, ps, mw, "mw-shut")
+    crash_as_violation(ctx, ps, mw, "mw-shut", "C20_Panic")
+    ctx.validate(sorted(glob.glob(os.path.join(mw, "mw-rt-*.ndjson")) + glob.glob(os.path.join(mw, "mw-shut-*.ndjson"))), module="WriteSeqTrace", cfg="WriteSeqTrace.cfg")
     ctx.distinct.add(("multi-writer-one-stream",))
     ctx.notes.append("mw-rt: 2-4 goroutines per stream write concurrently on the same stream of a blocking-write association with 0.5-15 ms deadlines "
                      "against a slow reader, in REAL time (a writer waiting on the stream's write mutex is not durably blocked for testing/synctest); "
